@@ -71,7 +71,16 @@ func VP_C09_RestoreStaged() {
 			vpOK(zzvp.Run("rm", f.path))
 		}
 	}
-	switch zzvp.Choose(3) {
+	switch zzvp.Choose(4) {
+	case 3:
+		// a committed top-level file replaced by a directory of the same name (only if the first file is at top level)
+		top := files[0].path
+		for i := 0; i < len(top); i++ {
+			zzvp.Assume(top[i] != '/')
+		}
+		zzvp.RemoveAll(w + "/" + top)
+		zzvp.WriteFile(w+"/"+top+"/"+vpComp("kx", 1), []byte("K"))
+		vpOK(zzvp.Run("add", top))
 	case 1:
 		np := vpPath("nw", depth, maxc)
 		for _, f := range files {
